@@ -251,7 +251,7 @@ example : matchAt [0xf3, 0x0f, 0x1e, 0xfa, 0xe8, 0, 0, 0, 0] 0 endbr64 = true :=
     last match is a -U, or that matches nothing, is not instrumented. -/
 theorem c14_traced_set_exact (cfg : Cfg) (hty : cfg.ty = .fentryNop ∨ cfg.ty = .patchable)
     (verdict : String → Option Bool) (syms : List Sym) (st : LoopSt)
-    (hd : Disjoint syms) (hin : ∀ s ∈ syms, s.addr + 9 ≤ st.code.length)
+    (hd : Disjoint syms) (ht : InText cfg syms) (hin : ∀ s ∈ syms, s.addr + 9 ≤ st.code.length)
     (h0 : ∀ s ∈ syms, instrumented st.code s = false) :
     ∀ s ∈ syms,
       (instrumented (runSyms cfg verdict st syms).code s = true ↔
@@ -260,20 +260,25 @@ theorem c14_traced_set_exact (cfg : Cfg) (hty : cfg.ty = .fentryNop ∨ cfg.ty =
           targetAddr cfg.tramp (cfg.start + prologueOff st.code s.addr) ≠ 0)) := by
   intro s hs
   have hpg : cfg.ty ≠ .pg := by rcases hty with e | e <;> rw [e] <;> decide
-  rw [instrumented_congr _ _ s (runSyms_window cfg hpg verdict syms hd st s hs),
+  rw [instrumented_congr _ _ s (runSyms_window cfg hpg verdict syms hd ht st s hs),
     instrumented_stepCode cfg hpg _ _ s (hin s hs) (h0 s hs), patchFunc_success_iff]
   constructor
   · rintro ⟨h1, h2, _, h4, h5⟩; exact ⟨h1, h2, h4, h5⟩
   · rintro ⟨h1, h2, h4, h5⟩; exact ⟨h1, h2, hty, h4, h5⟩
 
-example : Disjoint [⟨"a", 0, 16, true⟩, ⟨"b", 16, 16, true⟩] := by
-  simp [Disjoint]
+example : Disjoint [⟨"a", 0, 16, true, false⟩, ⟨"b", 16, 16, true, false⟩] ∧
+    InText { ty := .patchable, minSize := 0, start := 0x1000, tramp := 0x1ff0, locs := [], textLo := 0, textHi := 4096 }
+      [⟨"a", 0, 16, true, false⟩, ⟨"b", 16, 16, true, false⟩] := by
+  simp [Disjoint, InText]
 
 /-- Nothing else is modified: a byte of the module that differs after the loop
     lies in the window of a symbol that some -P or -U item selected; and the
-    image never changes length. -/
+    image never changes length.  (Holds for the code as it is and for the
+    repaired code; `c14_loop_modifies_only_nops_and_tracer_calls` below says what
+    the repaired code may overwrite *inside* such a window.) -/
 theorem c14_only_selected_modified (cfg : Cfg) (hty : cfg.ty ≠ .pg)
-    (verdict : String → Option Bool) (syms : List Sym) (st : LoopSt) (hd : Disjoint syms) (i : Nat)
+    (verdict : String → Option Bool) (syms : List Sym) (st : LoopSt) (hd : Disjoint syms)
+    (ht : InText cfg syms) (i : Nat)
     (h : (runSyms cfg verdict st syms).code[i]? ≠ st.code[i]?) :
     ∃ s ∈ syms, s.addr ≤ i ∧ i < s.addr + 9 ∧ verdict s.name ≠ none := by
   apply Classical.byContradiction
@@ -281,7 +286,7 @@ theorem c14_only_selected_modified (cfg : Cfg) (hty : cfg.ty ≠ .pg)
   apply h
   by_cases hw : ∃ s ∈ syms, s.addr ≤ i ∧ i < s.addr + 9
   · obtain ⟨s, hs, h1, h2⟩ := hw
-    rw [runSyms_window cfg hty verdict syms hd st s hs i h1 h2]
+    rw [runSyms_window cfg hty verdict syms hd ht st s hs i h1 h2]
     have hv : verdict s.name = none := by
       cases hvv : verdict s.name with
       | none => rfl
@@ -350,6 +355,139 @@ theorem c14_prefix_endbr_nop_undetected_witness :
     (patchFunc (detectTypeG false none c syms .none) 0 11 c 0x401000 0 0x401ff0) = (c, .failed) := by
   decide
 
+
+/-! ## unpatch only removes calls into the tracer (genuine defect C14-unpatch-any-call) -/
+
+/-- Repaired code (`cfg.fixed = true`): `-U` on a function rewrites its bytes only
+    if the function (for DYNAMIC_PG: its __mcount_loc site) begins with a call that
+    enters the tracer —
+    * `e8 rel32` whose target is this module's trampoline or lies in a PLT entry
+      of the module named `__fentry__`, `mcount` or `_mcount`, or
+    * `ff 15 disp32` whose GOT slot lies inside the module's mapping, entirely
+      outside the code segment, and holds the address of `__fentry__` / `mcount` —
+    and then exactly that instruction is replaced by the NOP of the same length.
+    A function that begins with a call to anything else is left byte-for-byte
+    untouched. -/
+theorem c14_unpatch_only_fentry_calls (cfg : Cfg) (hfx : cfg.fixed = true) (c : Code) (a : Nat)
+    (loc : Option Nat) (h : (unpatchFuncG cfg c a loc).1 ≠ c) :
+    ∃ o, (o = a ∨ loc = some o) ∧
+      ((rd c o = 0xe8 ∧ (unpatchFuncG cfg c a loc).1 = writeAt c o unpatch_nop5 ∧
+          ((cfg.tramp ≠ 0 ∧ callTarget cfg c o = cfg.tramp) ∨
+           ∃ s, findSym cfg.symtab ((callTarget cfg c o + 2 ^ 64 - cfg.start % 2 ^ 64) % 2 ^ 64) = some s ∧
+             s.isPlt = true ∧ s.name ∈ entryNames)) ∨
+       (rd c o = 0xff ∧ rd c (o + 1) = 0x15 ∧ (unpatchFuncG cfg c a loc).1 = writeAt c o unpatch_nop6 ∧
+          cfg.start ≤ gotSlot cfg c o ∧ gotSlot cfg c o + 8 ≤ cfg.start + cfg.mapLen ∧
+          (gotSlot cfg c o - cfg.start + 8 ≤ cfg.textLo ∨ cfg.textHi ≤ gotSlot cfg c o - cfg.start) ∧
+          rd64 c (gotSlot cfg c o - cfg.start) ∈ cfg.entryFuncs)) := by
+  have key : ∀ o, (unpatchAtG cfg c o).1 ≠ c →
+      ((rd c o = 0xe8 ∧ (unpatchAtG cfg c o).1 = writeAt c o unpatch_nop5 ∧
+          ((cfg.tramp ≠ 0 ∧ callTarget cfg c o = cfg.tramp) ∨
+           ∃ s, findSym cfg.symtab ((callTarget cfg c o + 2 ^ 64 - cfg.start % 2 ^ 64) % 2 ^ 64) = some s ∧
+             s.isPlt = true ∧ s.name ∈ entryNames)) ∨
+       (rd c o = 0xff ∧ rd c (o + 1) = 0x15 ∧ (unpatchAtG cfg c o).1 = writeAt c o unpatch_nop6 ∧
+          cfg.start ≤ gotSlot cfg c o ∧ gotSlot cfg c o + 8 ≤ cfg.start + cfg.mapLen ∧
+          (gotSlot cfg c o - cfg.start + 8 ≤ cfg.textLo ∨ cfg.textHi ≤ gotSlot cfg c o - cfg.start) ∧
+          rd64 c (gotSlot cfg c o - cfg.start) ∈ cfg.entryFuncs)) := by
+    intro o ho
+    rcases unpatchAtG_changes cfg hfx c o ho with ⟨h1, h2⟩ | ⟨h1, h2, h3⟩
+    · left
+      refine ⟨h1, ?_, (callsEntryDirect_iff cfg c o).1 h2⟩
+      simp [unpatchAtG, h1, h2]
+    · right
+      have hne : (rd c o == 0xe8) = false := by rw [h1]; decide
+      refine ⟨h1, h2, ?_, (callsEntryGot_iff cfg c o).1 h3⟩
+      simp [unpatchAtG, hne, h1, h2, h3]
+  unfold unpatchFuncG at h ⊢
+  cases hty : cfg.ty <;> simp only [hty] at h ⊢ <;> try exact absurd rfl h
+  · cases loc with
+    | none => exact absurd rfl h
+    | some l => exact ⟨l, Or.inr rfl, key l h⟩
+  · exact ⟨a, Or.inl rfl, key a h⟩
+  · exact ⟨a, Or.inl rfl, key a h⟩
+
+/-- non-vacuity: a `-pg -mfentry` function `call __fentry__@plt; lea 7(%rdi),%eax; ret`
+    at offset 0x30 with the PLT entry at offset 0x10 is unpatched by the repaired
+    code; so is `call *__fentry__@GOTPCREL(%rip)` (-fno-plt) whose slot at offset 0x60,
+    outside the code segment [0, 0x50), holds the address of `__fentry__` -/
+example :
+    let cfg : Cfg := { ty := .fentry, minSize := 0, start := 0x400000, tramp := 0x400ff0, locs := [],
+                       mapLen := 0x1000, textLo := 0, textHi := 0x50, entryFuncs := [0x7f0000001000, 0x7f0000002000],
+                       symtab := [⟨"__fentry__", 0x10, 16, false, true⟩, ⟨"traced", 0x30, 9, true, false⟩] }
+    let c : Code := List.replicate 0x30 0 ++ [0xe8, 0xdb, 0xff, 0xff, 0xff, 0x8d, 0x47, 0x07, 0xc3]
+    let g : Code := List.replicate 0x30 0 ++ [0xff, 0x15, 0x2a, 0x00, 0x00, 0x00, 0x8d, 0x47, 0x07, 0xc3] ++
+      List.replicate 0x26 0 ++ [0x00, 0x10, 0x00, 0x00, 0x00, 0x7f, 0x00, 0x00]
+    (unpatchFuncG cfg c 0x30 none).2 = .success ∧ (unpatchFuncG cfg g 0x30 none).2 = .success := by
+  decide
+
+/-- The patch loop of the repaired code, byte by byte: a byte of the module that
+    differs after the loop lies
+    * in the five bytes at the patch site of a function whose last matching option
+      is a -P and that `mcount_patch_func` accepted (size, NOP prologue), or
+    * in the window of a function whose last matching option is a -U and that
+      began with a call entering the tracer (see `c14_unpatch_only_fentry_calls`).
+    Every other byte — in particular every function that matched nothing, every
+    function that cannot be patched, and every -U function that begins with a
+    call of its own — is exactly as before. -/
+theorem c14_loop_modifies_only_nops_and_tracer_calls (cfg : Cfg) (hty : cfg.ty ≠ .pg)
+    (hfx : cfg.fixed = true) (verdict : String → Option Bool) (syms : List Sym) (st : LoopSt)
+    (hd : Disjoint syms) (ht : InText cfg syms) (i : Nat)
+    (h : (runSyms cfg verdict st syms).code[i]? ≠ st.code[i]?) :
+    ∃ s ∈ syms, s.addr ≤ i ∧ i < s.addr + 9 ∧
+      ((verdict s.name = some true ∧
+          (patchFunc cfg.ty cfg.minSize s.size st.code cfg.start s.addr cfg.tramp).2 = .success ∧
+          prologueOff st.code s.addr ≤ i ∧ i < prologueOff st.code s.addr + 5) ∨
+       (verdict s.name = some false ∧ entersTracer cfg st.code s.addr)) := by
+  by_cases hw : ∃ s ∈ syms, s.addr ≤ i ∧ i < s.addr + 9
+  · obtain ⟨s, hs, h1, h2⟩ := hw
+    refine ⟨s, hs, h1, h2, ?_⟩
+    rw [runSyms_window cfg hty verdict syms hd ht st s hs i h1 h2] at h
+    unfold stepCode at h
+    cases hv : verdict s.name with
+    | none => rw [hv] at h; exact absurd rfl h
+    | some b =>
+      rw [hv] at h
+      cases b
+      · right
+        refine ⟨rfl, ?_⟩
+        simp only at h
+        rcases unpatchFuncG_nopg cfg hty st.code s.addr (findLoc cfg.locs s) with e | e
+        · rw [e] at h; exact absurd rfl h
+        · rw [e] at h
+          exact unpatchAtG_changes cfg hfx st.code s.addr (fun hc => h (by rw [hc]))
+      · left
+        simp only at h
+        have hsucc : (patchFunc cfg.ty cfg.minSize s.size st.code cfg.start s.addr cfg.tramp).2 = .success := by
+          apply Classical.byContradiction
+          intro hns
+          exact h (by rw [(c14_patch_is_local cfg.ty cfg.minSize s.size st.code cfg.start s.addr cfg.tramp).2.2.1 hns])
+        refine ⟨rfl, hsucc, ?_⟩
+        apply Classical.byContradiction
+        intro hout
+        exact h ((c14_patch_is_local cfg.ty cfg.minSize s.size st.code cfg.start s.addr cfg.tramp).2.1 i (by omega))
+  · exact absurd (runSyms_outside cfg hty verdict syms st i (fun s hs => by
+      by_cases h1 : s.addr ≤ i
+      · by_cases h2 : i < s.addr + 9
+        · exact absurd ⟨s, hs, h1, h2⟩ hw
+        · right; omega
+      · left; omega)) h
+
+/-- Pre-fix witness (the code as it is, `fixed = false`): the -O2 function
+    `wrapper: call leaf; add $1,%eax; ret` of a `-pg -mfentry` program (built with
+    `no_instrument_function`, so its first instruction is its own call) is selected
+    by `-U wrapper`; unpatch_func sees `e8` and overwrites the call to `leaf` with
+    a NOP — the program then computes something else.  The repaired code leaves
+    it alone, and still unpatches the instrumented neighbour. -/
+theorem c14_prefix_unpatch_anycall_witness :
+    let symtab : List Sym := [⟨"__fentry__", 0x1070, 16, false, true⟩, ⟨"leaf", 0x11f0, 18, true, false⟩,
+                              ⟨"wrapper", 0x1210, 9, true, false⟩]
+    let cfg (fx : Bool) : Cfg := { ty := .fentry, minSize := 0, start := 0x400000, tramp := 0x401ff0, locs := [],
+                                   fixed := fx, mapLen := 0x5000, textLo := 0x1000, textHi := 0x2000,
+                                   symtab := symtab }
+    -- wrapper at offset 0 of this excerpt (module offset 0x1210): call leaf (-0x25); add $1,%eax; ret
+    let c : Code := [0xe8, 0xdb, 0xff, 0xff, 0xff, 0x83, 0xc0, 0x01, 0xc3]
+    (unpatchAtG (cfg false) c 0).1 = [0x0f, 0x1f, 0x44, 0x00, 0x00, 0x83, 0xc0, 0x01, 0xc3] ∧
+    (unpatchAtG (cfg true) c 0) = (c, .skipped) := by
+  decide
 
 /-! ## W^X -/
 
